@@ -642,7 +642,7 @@ class Pile(Widget, WidgetContainerMixin, WidgetContainerListContentsMixin):
                 if Sizing.FLOW in w_sizing:
                     w_h_args[idx] = (0,)
                 else:
-                    w_sizing[idx] = (0, 0)
+                    w_h_args[idx] = (0, 0)
 
             elif Sizing.FIXED in w_sizing and w_sizing & {Sizing.BOX, Sizing.FLOW}:
                 width, height = widget.pack((), focused)
@@ -849,7 +849,8 @@ class Pile(Widget, WidgetContainerMixin, WidgetContainerListContentsMixin):
                 combinelist.append((canv, i, item_focus))
 
         if not combinelist:
-            return SolidCanvas(" ", size[0], (size[1:] + (0,))[0])
+            # nothing to draw: a blank canvas of the size asked for (fixed: of the size pack(()) reports)
+            return SolidCanvas(" ", size[0] if size else maxcol, size[1] if len(size) == 2 else sum(heights))
 
         out = CanvasCombine(combinelist)
         if len(size) == 2 and size[1] != out.rows():
